@@ -41,7 +41,7 @@ for d in sorted(glob.glob(os.path.join(ROOT, "seeded", "*", "*"))):
         t = open(sp).read().strip()
         mm = re.match(r"unavailable: (.*?) \| broken: ?(.*)$", t)
         if mm:
-            una = [g for g in mm.group(1).split() if g != "none" and re.search(r"[VA]D?$|^GrpPoll$|^Std$|^Dir$|^Idx$|^PS$|^Grp$|^Wait$", g)]
+            una = [g for g in mm.group(1).split() if g != "none" and re.search(r"[VAT]D?$|^GrpPoll$|^Std$|^Dir$|^Idx$|^PS$|^Grp$|^Wait$", g)]
             brk = [g for g in mm.group(2).split() if g != "none"]
             parts = []
             if brk:
